@@ -497,7 +497,7 @@ macro_rules! assert_vfs_readlink {
         match $vfs.readlink(&link) {
             Ok(x) => {
                 if x.to_string().unwrap() != $target.to_string().unwrap() {
-                    panic_msg!("assert_vfs_readlink!", "link target doesn't equal given path", &x);
+                    panic_msg!("assert_vfs_readlink!", format!("link target {:?} doesn't equal given path", &x), &link);
                 }
             },
             _ => panic_msg!("assert_vfs_readlink!", "failed while reading link", &link),
